@@ -97,6 +97,10 @@ GraphTextBad(e, pre) ==
   /\ IF pre.exec[1].v = "GRAPH.PRINT" THEN pre.graph # <<>> /\ ~TextOK(e.post.name[1], pre.graph[1])
      ELSE Len(pre.graph) >= 2 /\ ~DiffTextOK(e.post.name[1], pre.graph[2], pre.graph[1])
 JudgeStepT(e, pre) ==
+  IF StepKind(pre) = "extra"          \* a registered instruction the specification says nothing about: only a crash is judged
+  THEN (IF Crashed(e) THEN Verdict("crash", pre.exec[1].v, "C01", <<>>, e.post.msg)
+        ELSE Verdict("mismatch", pre.exec[1].v, "EXT", <<>>, "registered instruction without a specification: the step is not judged"))
+  ELSE
   LET j == JudgeStep(e, pre) IN
   IF j.v = "ok" /\ TicksOf(e) # ExpectedTicks(pre)
   THEN Verdict("mismatch", j.subj, "C06", <<"ticks">>, "probe log differs from the specification")
